@@ -39,17 +39,24 @@ class P(FlowFidelity):
             tm, tm_opts = Tpl(999, [known, missing], [(rng.choice([1, 2, 8]), 0, 4)]), True
         else:
             tm, tm_opts = Tpl(999, [known], [missing]), True
+        # (every fourth base: it RE-DEFINES the id of an installed template: data for that id is undecodable from then on, and what the id
+        # used to mean must not be applied to it)
+        redefined = None
+        if len(tpls) >= 2 and rng.random() < 0.25:
+            redefined = tpls[-1][0].tid
+            tm.tid = redefined
         tsets = [g.enc_set(g.tpl_set_id(o), g.enc_tpl(t, o)) for t, o in tpls] + [g.enc_set(g.tpl_set_id(tm_opts), g.enc_tpl(tm, tm_opts))]
         m1 = g.enc_msg(tsets)
         dsets = []
+        usable = [tp for tp in tpls if tp[0].tid != redefined]
         for _ in range(rng.choice([1, 2, 3])):
-            t, o = rng.choice(tpls)
+            t, o = rng.choice(usable)
             body = b""
             for _ in range(rng.choice([1, 2, 4])):
                 w, _ = g.rand_record(t)
                 if directed and all(sp[2] != 65535 for sp in t.specs()) and len(w) >= 12:   # fixed-length records only: a splice must not hit a length prefix
                     # make the record's octets look like the set header + record of another installed template
-                    t2 = rng.choice(tpls)[0]
+                    t2 = rng.choice(usable)[0]
                     fake = struct.pack(">HH", t2.tid, 4 + 8) + bytes([66] * 8)
                     w = (fake + w)[:len(w)] if rng.random() < 0.5 else (w[:len(w) - len(fake)] + fake)[-len(w):]
                 body += w
